@@ -25,6 +25,7 @@ META = {
     "encoded": ["csr.reg.Register.__init__", "csr.reg.Register.__iter__", "csr.reg.Register.elaborate",
                 "csr.reg.FieldActionMap.__init__/flatten", "csr.reg.FieldActionArray.__init__/flatten",
                 "csr.reg.Field.create", "csr.reg.FieldPort.Signature"],
+    "also": 'underscore-prefixed annotation names, subclassed annotation-defined registers, sub-collections that are the same object twice, second elaboration of the same register, r_data of non-readable fields arbitrary',
     "bounds": "field collections: single Field, dict, list, nested dict/list up to depth 3, annotation-defined "
               "classes; 1-6 leaves (thorough 1-9); actions R/W/RW/RW1C/RW1S/reserved; shapes unsigned 0-9, signed "
               "1-5, enum; register access r/w/rw; every value on element and field ports (one free frame)",
